@@ -603,6 +603,17 @@ _CONSTRUCTORS = {"slice", "list", "tuple", "dict", "set", "frozenset", "str", "i
                  "hex", "sorted", "range", "len"}
 
 
+def _const_choice_condition(test: "T") -> "T":
+    """`(16 if c else 0)` used as a condition is `c`; `(0 if c else 16)` is `not c`."""
+    if test.op == "ite" and test.a[1].op == "const" and test.a[2].op == "const":
+        a, b = bool(test.a[1].a[0]), bool(test.a[2].a[0])
+        if a and not b:
+            return test.a[0]
+        if b and not a:
+            return T("not", (test.a[0],))
+    return test
+
+
 def _literal_seq(node) -> bool:
     if isinstance(node, ast.Constant):
         return True
@@ -921,7 +932,7 @@ def _reached_object(t: "T") -> bool:
 
 
 def _const_tree(t: "T") -> bool:
-    if t.op in ("const", "class", "func"):       # (enum members are not: loops over members are judged as loops, C11)
+    if t.op in ("const", "class", "func", "builtin"):  # (enum members are not: loops over members are judged as loops, C11)
         return True
     if t.op in ("tuple", "list"):
         return all(_const_tree(x) for x in t.a[0])
@@ -937,9 +948,11 @@ def unrollable(node: ast.For) -> bool:
     return _unrollable_body(node)
 
 
-def _unrollable_body(node: ast.For) -> bool:
-    # a short table written in the loop header itself may drive inner loops: each row gets its own copy of them
-    rows_in_place = isinstance(node.iter, ast.Tuple) and 0 < len(node.iter.elts) <= 8 and all(_table_row(e) for e in node.iter.elts)
+def _unrollable_body(node: ast.For, small_table: bool = False) -> bool:
+    # a short table written in the loop header itself (or a short module-level table of rows) may drive inner loops: each row
+    # gets its own copy of them
+    rows_in_place = small_table or (isinstance(node.iter, ast.Tuple) and 0 < len(node.iter.elts) <= 8
+                                    and all(_table_row(e) for e in node.iter.elts))
     for st in node.body:
         for n in ast.walk(st):
             if isinstance(n, ast.Try) and try_as_ifs(n) is not None:
@@ -1271,7 +1284,7 @@ class _Frame:
         return st
 
     def s_If(self, s, st):
-        test = self.eval(s.test, st)
+        test = _const_choice_condition(self.eval(s.test, st))
         tv = truth(test)
         if tv is True:
             return self.exec_block(s.body, st)
@@ -1289,6 +1302,11 @@ class _Frame:
             for nme, val in list(side.env.items()):
                 if val == g_term:
                     side.env[nme] = T("alias", (path,))
+        # a variable that was chosen by this very condition (`size = 16 if opening else 0` ... `if opening:`) has the chosen
+        # value on each side
+        for nme, val in list(st.env.items()):
+            if val.op == "ite" and val.a[0] == test:
+                sa.env[nme], sb.env[nme] = val.a[1], val.a[2]
         ra = self.exec_block(s.body, sa)
         rb = self.exec_block(s.orelse, sb)
         if ra is None and rb is None:
@@ -1539,7 +1557,12 @@ class _Frame:
                     s2 = copy.copy(s)
                     s2.iter = ast.copy_location(ast.Name(id=f"__it{id(s)}", ctx=ast.Load()), s.iter)
                     s = s2
-        if unrollable(s) or (not s.orelse and _unrollable_body(s)):
+        small_table = False
+        if it.op == "global" and isinstance(s.iter, ast.Name):
+            f_ = self.repo.lookup(it.a[0])
+            small_table = bool(f_ and f_[0] == "const" and isinstance(f_[2], ast.Tuple) and 0 < len(f_[2].elts) <= 8
+                               and all(isinstance(e, ast.Tuple) and _table_row(e) for e in f_[2].elts))
+        if unrollable(s) or (not s.orelse and _unrollable_body(s, small_table)):
             items = it
             if not unrollable(s):
                 # a table-driven loop: `for raw, name in _FIELDS:` over a module-level tuple of literals (possibly reached
@@ -1561,6 +1584,11 @@ class _Frame:
                             cache[id(found[2])] = fr.eval(found[2], State({}, {}, ()))
                         items = cache[id(found[2])]
                         module_table = items.op == "tuple" and not any(i.op == "star" for i in items.a[0])
+                if items.op in ("tuple", "list") and items.a[0] and all(i.op == "enum" for i in items.a[0]):
+                    # a flat tuple of enum members stays a loop over members (the form the flag rules judge; unrolled, a body
+                    # that appends conditionally doubles the term with every member)
+                    items = T("unknown", ("flat-enum-members",))
+                    module_table = False
                 view = None
 
                 def table_dict(t_):
@@ -1592,7 +1620,8 @@ class _Frame:
                     items = T("tuple", (tuple({"items": T("tuple", ((k, v),)), "values": v, "keys": k}[view] for k, v in d_.a[0]),))
                 elif items.op == "tuple" and items.a[0] and len(items.a[0]) <= 64 and not any(i.op == "star" for i in items.a[0]) \
                         and (isinstance(s.iter, ast.Name) or (isinstance(s.iter, ast.Tuple) and len(s.iter.elts) <= 8
-                                                              and all(isinstance(e, ast.Tuple) for e in s.iter.elts))):
+                                                              and (all(isinstance(e, ast.Tuple) for e in s.iter.elts)
+                                                                   or all(isinstance(e, ast.Name) for e in s.iter.elts)))):
                     pass            # a local tuple literal (immutable): one copy of the body per item, whatever the items are
                 elif items.op == "list" and 0 < len(items.a[0]) <= 8 and not any(i.op == "star" for i in items.a[0]) \
                         and isinstance(s.iter, ast.Name) and not any(
@@ -1614,7 +1643,13 @@ class _Frame:
                 # copies of the body, one per possible element, in order
                 from .render import listify
                 elems = listify(it)
-                if elems is not None and 0 < len(elems) <= 8 and all(_const_tree(e) for e, _ in elems):
+
+                def _plain_item(e_):
+                    # constants, classes and functions - and callables that cannot change under the loop: lambdas / local
+                    # functions and bound methods of self (a list of predicates, of handlers)
+                    return _const_tree(e_) or e_.op == "lambda" or (e_.op == "attr" and e_.a[0] == param("self")) \
+                        or (e_.op == "attr" and e_.a[0].op == "new")
+                if elems is not None and 0 < len(elems) <= 8 and all(_plain_item(e) for e, _ in elems):
                     for item, conds in elems:
                         if not conds:
                             self.bind(s.target, item, st, s, record=False)
@@ -1639,6 +1674,12 @@ class _Frame:
         ds = self._desugar_for(s, it, st)
         if ds is not None:
             return self.exec_block(ds, st)
+        ds2 = self._desugar_single_loop_generator(s, it, st)
+        if ds2 is not None:
+            return self.exec_block(ds2, st)
+        done = self._for_over_generator(s, it, st)
+        if done is not None:
+            return done
         if it.op == "comp" and it.a[0] in ("list", "gen") and len(it.a[2]) == 1 and not it.a[2][0][2] \
                 and not isinstance(s.iter, (ast.ListComp, ast.GeneratorExp)):
             # `pairs = [f(x) for x in xs]` ... `for a, b in pairs:` visits xs once, in order, with (a, b) = f(x)
@@ -1677,6 +1718,140 @@ class _Frame:
                                   elem_map=lambda e, elt=elt, evar=evar: subst(elt, {evar: e}))
         self._pending_iter_path = self.path_of(s.iter, st)
         return self._run_loop("for", s, st, it, s.body, s.orelse, target=s.target)
+
+    def _desugar_single_loop_generator(self, s, it: T, st) -> Optional[list]:
+        """`for x in gen(a): B` with
+
+            def gen(p):
+                for v in p:          # one loop, one `yield` at its top level
+                    PRE
+                    yield e(v)
+                    POST             # e.g. `if last(v): return`
+
+        is  `for v in a: PRE; x = e(v); B; POST'`  (POST' = POST with `return` turned into `break`): B may then carry variables
+        from one iteration to the next like in any loop.  B must not `continue` / `break` itself (it would skip POST)."""
+        import copy
+        if s.orelse or it.op != "call" or it.a[0].op != "func" or it.a[2] or self.depth >= self.I.inline_depth:
+            return None
+        found = self.repo.lookup(it.a[0].a[0])
+        if not found or found[0] != "func":
+            return None
+        fnode = found[2]
+        if fnode.decorator_list or fnode.args.vararg or fnode.args.kwarg or fnode.args.kwonlyargs or fnode.args.defaults \
+                or len(fnode.args.args) != len(it.a[1]) or any(a.op == "star" for a in it.a[1]):
+            return None
+        body = [b for b in fnode.body if not (isinstance(b, ast.Expr) and isinstance(b.value, ast.Constant))]
+        if len(body) != 1 or not isinstance(body[0], ast.For) or body[0].orelse:
+            return None
+        loop = body[0]
+        yi = [i for i, b in enumerate(loop.body) if isinstance(b, ast.Expr) and isinstance(b.value, ast.Yield)]
+        if len(yi) != 1 or loop.body[yi[0]].value.value is None:
+            return None
+        others = [b for i, b in enumerate(loop.body) if i != yi[0]]
+        if any(isinstance(x, (ast.Yield, ast.YieldFrom, ast.FunctionDef, ast.Lambda, ast.For, ast.While, ast.Try, ast.With,
+                              ast.Continue)) for b in others for x in ast.walk(b)):
+            return None
+        if any(isinstance(x, (ast.Break, ast.Continue, ast.Return)) for b in s.body for x in ast.walk(b)
+               if not isinstance(b, (ast.For, ast.While))):
+            return None
+        if getattr(self.repo, "fn_home", {}).get(id(fnode), found[1]) is not self.mod:
+            # module-level names of the generator resolve in its own module: only taken over when that is this frame's module
+            return None
+        uid = self.I.fresh()
+        params = [a.arg for a in fnode.args.args]
+        local_names = {x.id for x in ast.walk(loop) if isinstance(x, ast.Name) and isinstance(x.ctx, ast.Store)} | set(params)
+
+        class _Ren(ast.NodeTransformer):
+            def visit_Name(_self, x):
+                if x.id in local_names:
+                    return ast.copy_location(ast.Name(id=f"__g{uid}_{x.id}", ctx=x.ctx), x)
+                return x
+
+            def visit_Return(_self, x):
+                return ast.copy_location(ast.Break(), x)
+        for p_, a_ in zip(params, it.a[1]):
+            st.env[f"__g{uid}_{p_}"] = a_
+        new_loop = _Ren().visit(copy.deepcopy(loop))
+        y = new_loop.body[yi[0]]
+        assign = ast.Assign(targets=[s.target], value=y.value.value)
+        new_loop.body = new_loop.body[:yi[0]] + [assign] + list(s.body) + new_loop.body[yi[0] + 1:]
+        for x in ast.walk(new_loop):
+            if not hasattr(x, "lineno"):
+                ast.copy_location(x, s)
+        ast.fix_missing_locations(new_loop)
+        return [new_loop]
+
+    def _for_over_generator(self, s, it: T, st):
+        """`for x in gen(args): B` with `gen` a generator function of the package (or a generator method of self): the body of
+        `gen` is interpreted in place and B runs at each of its `yield`s, inside the loops and conditions the yield sits in.
+        Supported when B rebinds nothing but the loop target (no accumulation across iterations), and has no break / continue /
+        return of its own; the state after the loop is the caller's state after the last such run."""
+        if s.orelse or it.op != "call" or self.depth >= self.I.inline_depth:
+            return None
+        f, args, kwargs = it.a
+        target = None
+        if f.op == "func":
+            found = self.repo.lookup(f.a[0])
+            if found and found[0] == "func":
+                target = (found[1], found[2], None, None, f.a[0])
+        elif f.op == "attr" and f.a[0].op == "param" and f.a[0].a[0] in ("self", "cls") and self.self_cls is not None \
+                and f.a[1] in self.self_cls.methods:
+            target = (self.self_cls.module, self.self_cls.methods[f.a[1]], self.self_cls, f.a[0],
+                      f"{self.self_cls.qualname}.{f.a[1]}")
+        if target is None:
+            return None
+        mod, fnode, cls, recv, qn = target
+        if id(fnode) in self.stack or not any(isinstance(x, ast.Yield) for x in ast.walk(fnode)) \
+                or any(isinstance(x, ast.YieldFrom) for x in ast.walk(fnode)):
+            return None
+        if any(a.op == "star" for a in args) or any(k == "**" for k, _ in kwargs) or fnode.decorator_list and not all(
+                ast.unparse(d) in ("staticmethod", "classmethod") for d in fnode.decorator_list):
+            return None
+        tnames = {x.id for x in ast.walk(s.target) if isinstance(x, ast.Name)}
+        for b_ in s.body:
+            for x in ast.walk(b_):
+                if isinstance(x, (ast.Break, ast.Continue, ast.Return, ast.FunctionDef, ast.Lambda, ast.Try, ast.With)):
+                    return None
+        def iteration_local(name):
+            """bound by a plain top-level assignment of the body before anything reads it: a fresh value in every iteration"""
+            for b_ in s.body:
+                loads = any(isinstance(x, ast.Name) and x.id == name and isinstance(x.ctx, ast.Load) for x in ast.walk(b_))
+                if isinstance(b_, ast.Assign) and len(b_.targets) == 1 and isinstance(b_.targets[0], ast.Name) \
+                        and b_.targets[0].id == name and not loads:
+                    return True
+                if loads or any(isinstance(x, ast.Name) and x.id == name for x in ast.walk(b_)):
+                    return False
+            return False
+        if any(not iteration_local(nm_) for nm_ in set(self._assigned_names(s.body, st.env)) - tnames):
+            return None
+        mod = getattr(self.repo, "fn_home", {}).get(id(fnode), mod)
+        fr = _Frame(self.I, mod, fnode, cls, self.rec, qn, self.depth + 1, self.stack + (id(fnode),),
+                    base_pc=st.pc, base_loops=self.loops, base_trys=self.trys)
+        pos = list(args)
+        is_static = any(ast.unparse(d) == "staticmethod" for d in fnode.decorator_list)
+        if cls is not None and not is_static:
+            pos.insert(0, recv)
+        cs = fr.bind_params({}, symbolic_missing=False, positional=tuple(pos), kwargs=kwargs)
+        cs.heap = st.heap
+        fr.expanded_generator = True
+        outer = st
+        caller = self
+
+        def on_yield(value, cst):
+            saved = (caller.loops, caller.trys, outer.pc)
+            caller.loops, caller.trys, outer.pc = fr.loops, fr.trys, cst.pc
+            outer.heap = cst.heap
+            caller.bind(s.target, value, outer, s, record=False)
+            res = caller.exec_block(s.body, outer)
+            if res is not None and res is not outer:
+                outer.env, outer.heap = res.env, res.heap
+            cst.heap = outer.heap
+            caller.loops, caller.trys, outer.pc = saved
+        fr.on_yield = on_yield
+        fr.exec_block(fnode.body, cs)
+        if fr.is_generator is False:
+            pass
+        return outer
 
     def _desugar_for(self, s, it: T, st) -> Optional[list]:
         """Loops driven through the iterator protocol, as the plain loops they are:
@@ -1865,9 +2040,16 @@ class _Frame:
             if not any(isinstance(e, ast.Starred) for e in tgt.elts):
                 self.rec.pops.append(POp("unpack", v, n, st.pc, self.loops, self.trys, self.seq(), self.qualname,
                                          getattr(tgt, "lineno", 0), getattr(tgt, "col_offset", 0)))
+            lit_ = v.op in ("tuple", "list") and not any(i_.op == "star" for i_ in v.a[0]) and len(v.a[0]) >= n - 1 \
+                and sum(isinstance(e, ast.Starred) for e in tgt.elts) == 1
             for i, e in enumerate(tgt.elts):
-                if isinstance(e, ast.Starred):
+                if isinstance(e, ast.Starred) and lit_:
+                    # a, *rest = (x, y, z): rest is the list of the items in between
+                    self.bind(e.value, T("list", (tuple(v.a[0][i:len(v.a[0]) - (n - 1 - i)]),)), st, stmt, record)
+                elif isinstance(e, ast.Starred):
                     self.bind(e.value, T("unknown", ("starred-unpack",)), st, stmt, record)
+                elif lit_ and any(isinstance(e2, ast.Starred) for e2 in tgt.elts[:i]):
+                    self.bind(e, v.a[0][len(v.a[0]) - (n - i)], st, stmt, record)
                 else:
                     self.bind(e, self.index_term(v, const(i), n), st, stmt, record)
         elif isinstance(tgt, ast.Attribute):
@@ -1933,6 +2115,14 @@ class _Frame:
         return bound.get(key)
 
     def index_term(self, v: T, idx: T, n_targets: Optional[int] = None) -> T:
+        if v.op == "global" and idx.op == "const" and isinstance(idx.a[0], int) and not isinstance(idx.a[0], bool) \
+                and v.a[0].startswith("pykdebugparser."):
+            f_ = self.repo.lookup(v.a[0])
+            if f_ and f_[0] == "const" and isinstance(f_[2], ast.Tuple):
+                v_ = consteval.evaluate(self.repo, f_[1], f_[2])
+                if isinstance(v_, tuple) and -len(v_) <= idx.a[0] < len(v_) \
+                        and isinstance(v_[idx.a[0]], (int, str, bytes, float, bool, type(None))):
+                    return const(v_[idx.a[0]])
         if idx.op == "const" and isinstance(idx.a[0], int):
             nt = self._namedtuple_item(v, idx.a[0])
             if nt is not None:
@@ -2023,9 +2213,16 @@ class _Frame:
             v = consteval.evaluate(self.repo, mod, mod.constants[name])
             if v is not consteval.UNKNOWN and isinstance(v, (int, str, bytes, float, bool, type(None))):
                 return const(v)
+            if isinstance(v, tuple) and 0 < len(v) <= 64 and isinstance(mod.constants[name], ast.Call) \
+                    and all(isinstance(x, (int, str, bytes, float, bool, type(None))) for x in v):
+                # a COMPUTED tuple of scalars (`tuple(range(0, 32, 8))`): the tuple it evaluates to
+                return T("tuple", (tuple(const(x) for x in v),))
             cv = self._callable_constant(mod, mod.constants[name])
             if cv is not None:
                 return cv
+            et = self._enum_table_constant(mod, mod.constants[name])
+            if et is not None:
+                return et
             return T("global", (f"{mod.name}.{name}",))
         if name in mod.imports:
             dotted = mod.imports[name]
@@ -2047,6 +2244,47 @@ class _Frame:
         if name in ("True", "False", "None"):
             return const({"True": True, "False": False, "None": None}[name])
         return T("global", (f"?{name}",))
+
+    def _enum_table_constant(self, mod: ModuleInfo, node) -> Optional[T]:
+        """`TABLE = tuple((m.value, m) for m in Flags)` / `... for m in Flags.__members__.values()`: a table computed at import
+        time from an enum class of the package - the tuple of rows it evaluates to (one per member, in definition order)."""
+        if not (isinstance(node, ast.Call) and isinstance(node.func, ast.Name) and node.func.id in ("tuple", "list")
+                and len(node.args) == 1 and not node.keywords and isinstance(node.args[0], (ast.GeneratorExp, ast.ListComp))):
+            return None
+        comp = node.args[0]
+        if len(comp.generators) != 1 or comp.generators[0].ifs or not isinstance(comp.generators[0].target, ast.Name):
+            return None
+        cache = self.I.__dict__.setdefault("_enum_tables", {})
+        if id(node) in cache:
+            return cache[id(node)]
+        cache[id(node)] = None
+        src = comp.generators[0].iter
+        all_members = False
+        if isinstance(src, ast.Call) and isinstance(src.func, ast.Attribute) and src.func.attr == "values" and not src.args \
+                and isinstance(src.func.value, ast.Attribute) and src.func.value.attr == "__members__":
+            src, all_members = src.func.value.value, True
+        dn = self.repo.dotted(mod, src)
+        f_ = self.repo.lookup(dn) if dn else None
+        if not f_ or f_[0] != "class" or not f_[2].enum_kind or len(f_[2].members) > 12:   # (longer tables: unrolled loops over them grow exponentially)
+            return None
+        ci = f_[2]
+        members = []
+        seen_vals = set()
+        for nme, val in ci.members:
+            if not all_members:
+                if val in seen_vals:
+                    continue            # an alias is not yielded by iteration
+                if ci.enum_kind in ("Flag", "IntFlag") and (not isinstance(val, int) or val == 0 or bin(val).count("1") != 1):
+                    continue            # iterating a Flag class yields the canonical single-bit members only (3.11+)
+            seen_vals.add(val)
+            members.append(nme)
+        fr = _Frame(self.I, mod, None, None, Record(), f"{mod.name}.<module>", self.depth + 1, self.stack)
+        rows = []
+        for nme in members:
+            stt = State({comp.generators[0].target.id: T("enum", (ci.qualname, nme))}, {}, ())
+            rows.append(fr.eval(comp.elt, stt))
+        cache[id(node)] = T("tuple", (tuple(rows),))
+        return cache[id(node)]
 
     def _callable_constant(self, mod: ModuleInfo, node) -> Optional[T]:
         """A module-level `NAME = lambda ...`, `NAME = operator.methodcaller('split')`, `NAME = functools.partial(f, ...)` or
@@ -2148,6 +2386,37 @@ class _Frame:
                                      node.lineno, node.col_offset))
         return key
 
+    def _module_dict_literal(self, dotted: str) -> Optional[T]:
+        """A module-level `NAME = {'key': function, ...}` of the package that nothing in its module changes afterwards: the
+        dict term it evaluates to (constant keys; functions, classes, constants as values)."""
+        cache = self.I.__dict__.setdefault("_module_dict_cache", {})
+        if dotted in cache:
+            return cache[dotted]
+        cache[dotted] = None
+        found = self.repo.lookup(dotted)
+        if not (found and found[0] == "const" and isinstance(found[2], ast.Dict) and found[2].keys and len(found[2].keys) <= 1024
+                and all(isinstance(k, ast.Constant) for k in found[2].keys)
+                and all(isinstance(v, (ast.Name, ast.Constant)) for v in found[2].values)):
+            return None
+        name, mod = dotted.rsplit(".", 1)[1], found[1]
+        stores = 0
+        for x in ast.walk(mod.tree):
+            if isinstance(x, ast.Name) and x.id == name and isinstance(x.ctx, (ast.Store, ast.Del)):
+                stores += 1
+            if isinstance(x, (ast.Subscript, ast.Attribute)) and isinstance(x.ctx, (ast.Store, ast.Del)) \
+                    and isinstance(x.value, ast.Name) and x.value.id == name:
+                return None
+            if isinstance(x, ast.Call) and isinstance(x.func, ast.Attribute) and x.func.attr in MUTATORS \
+                    and isinstance(x.func.value, ast.Name) and x.func.value.id == name:
+                return None
+        if stores != 1:
+            return None
+        fr_ = _Frame(self.I, mod, None, None, Record(), f"{mod.name}.<module>", self.depth + 1, self.stack)
+        v = fr_.eval(found[2], State({}, {}, ()))
+        if v.op == "dict" and all(k.op == "const" and _const_tree(x) for k, x in v.a[0]):
+            cache[dotted] = v
+        return cache[dotted]
+
     def _class_attribute(self, qualname: str, name: str, depth: int = 0) -> Optional[T]:
         """A constant class-level attribute (`NAME: ClassVar[str] = 'x'` / `NAME = 'x'`) of a package class or its bases."""
         found = self.repo.lookup(qualname)
@@ -2167,6 +2436,23 @@ class _Frame:
                 v = consteval.evaluate(self.repo, ci.module, val)
                 if v is not consteval.UNKNOWN and isinstance(v, (int, str, bytes, float, bool, type(None))):
                     return const(v)
+            if tgt == name and val is not None and isinstance(st_, ast.Assign) and isinstance(val, (ast.Tuple, ast.BinOp, ast.Name)) \
+                    and not any(isinstance(x, (ast.Call, ast.Lambda, ast.ListComp, ast.GeneratorExp, ast.Attribute, ast.List, ast.Dict))
+                                for x in ast.walk(val)):
+                # NAME = (('field', format_function), ...): an immutable class-level table (also `_SHARED_ROWS + (row,)`)
+                cache = self.I.__dict__.setdefault("_class_table_cache", {})
+                if id(val) not in cache:
+                    fr_ = _Frame(self.I, ci.module, None, None, Record(), f"{ci.module.name}.<module>", self.depth + 1, self.stack)
+                    tv_ = fr_.eval(val, State({}, {}, ()))
+                    if tv_.op == "global":
+                        f2_ = self.repo.lookup(tv_.a[0])
+                        if f2_ and f2_[0] == "const" and isinstance(f2_[2], (ast.Tuple, ast.BinOp)) \
+                                and not any(isinstance(x, (ast.Call, ast.Lambda, ast.ListComp, ast.GeneratorExp, ast.Attribute, ast.List,
+                                                           ast.Dict)) for x in ast.walk(f2_[2])):
+                            tv_ = fr_.eval(f2_[2], State({}, {}, ()))
+                    cache[id(val)] = tv_ if (tv_.op == "tuple" and _const_tree(tv_)) else None
+                if cache[id(val)] is not None:
+                    return cache[id(val)]
         for b in ci.bases:
             r = self._class_attribute(b, name, depth + 1)
             if r is not None:
@@ -2243,6 +2529,14 @@ class _Frame:
             row = self._spec_table_row(base.a[0], idx.a[0])
             if row is not None:
                 return row
+            if isinstance(idx.a[0], int) and not isinstance(idx.a[0], bool) and base.a[0].startswith("pykdebugparser."):
+                # FIELD = (shift, mask) at module level: FIELD[0] is the constant
+                f_ = self.repo.lookup(base.a[0])
+                if f_ and f_[0] == "const" and isinstance(f_[2], ast.Tuple):
+                    v_ = consteval.evaluate(self.repo, f_[1], f_[2])
+                    if isinstance(v_, tuple) and -len(v_) <= idx.a[0] < len(v_) \
+                            and isinstance(v_[idx.a[0]], (int, str, bytes, float, bool, type(None))):
+                        return const(v_[idx.a[0]])
         self.rec.pops.append(POp("sub", base, idx, st.pc, self.loops, self.trys, self.seq(), self.qualname, n.lineno,
                                  n.col_offset, self.path_of(n.value, st)))
         return key
@@ -2328,6 +2622,40 @@ class _Frame:
                 return False
             return False
         return None
+
+    def _module_object(self, dotted: str) -> Optional[T]:
+        """`NAME = Helper(const, ...)` at module level, Helper a plain package class whose methods never store into self after
+        __init__ (an immutable description object shared by many callers): the object, built once."""
+        found = self.repo.lookup(dotted)
+        if not found or found[0] != "const" or not isinstance(found[2], ast.Call) or self.depth >= self.I.inline_depth:
+            return None
+        cache = self.I.__dict__.setdefault("_module_objects", {})
+        if id(found[2]) in cache:
+            return cache[id(found[2])]
+        cache[id(found[2])] = None
+        cdn = self.repo.dotted(found[1], found[2].func)
+        cf = self.repo.lookup(cdn) if cdn else None
+        if not cf or cf[0] != "class":
+            return None
+        ci: ClassInfo = cf[2]
+        if ci.is_dataclass or ci.enum_kind or "__init__" not in ci.methods or ci.qualname in API_CLASSES \
+                or not all(b in ("object", "builtins.object") for b in ci.bases):
+            return None
+        for mname, m in ci.methods.items():
+            if mname == "__init__":
+                continue
+            for x in ast.walk(m):
+                if isinstance(x, (ast.Attribute, ast.Subscript)) and isinstance(x.ctx, (ast.Store, ast.Del)):
+                    root = x
+                    while isinstance(root, (ast.Attribute, ast.Subscript)):
+                        root = root.value
+                    if isinstance(root, ast.Name) and root.id == "self":
+                        return None
+        fr = _Frame(self.I, found[1], None, None, Record(), f"{found[1].name}.<module>", self.depth + 1, self.stack)
+        v = fr.eval(found[2], State({}, {}, ()))
+        if v.op == "new":
+            cache[id(found[2])] = v
+        return cache[id(found[2])]
 
     def _singleton_instance(self, dotted: str) -> Optional[ClassInfo]:
         """`NAME = Cls()` at module level, Cls a package class without state of its own (no __init__, no fields): the class."""
@@ -2433,6 +2761,23 @@ class _Frame:
         found = self.repo.lookup(dotted)
         if not found or found[0] != "const" or self.depth >= self.I.inline_depth:
             return None
+        if isinstance(found[2], ast.DictComp) and len(found[2].generators) == 1 and not found[2].generators[0].ifs \
+                and isinstance(found[2].generators[0].target, ast.Name) and isinstance(found[2].key, ast.Name) \
+                and found[2].key.id == found[2].generators[0].target.id:
+            # TABLE = {name: Make(name) for name in ('a', 'b', ...)}: the row of a listed key
+            keys = consteval.evaluate(self.repo, found[1], found[2].generators[0].iter)
+            nm_ = dotted.rpartition(".")[2]
+            stores = sum(1 for x in ast.walk(found[1].tree) if isinstance(x, ast.Name) and x.id == nm_ and isinstance(x.ctx, ast.Store))
+            mutated = any(isinstance(x, (ast.Subscript, ast.Attribute)) and isinstance(x.ctx, (ast.Store, ast.Del))
+                          and isinstance(x.value, ast.Name) and x.value.id == nm_ for x in ast.walk(found[1].tree))
+            if isinstance(keys, (tuple, list)) and key in keys and stores == 1 and not mutated:
+                cache = self.I.__dict__.setdefault("_table_cache", {})
+                ck = (id(found[2]), key)
+                if ck not in cache:
+                    fr = _Frame(self.I, found[1], self.fnode, None, Record(), f"{found[1].name}.<module>", self.depth + 1, self.stack)
+                    cache[ck] = fr.eval(found[2].value, State({found[2].key.id: const(key)}, {}, ()))
+                return cache[ck]
+            return None
         if not isinstance(found[2], ast.Dict):
             built = self.I.computed_table(found[1], dotted.rpartition(".")[2])
             if built is not None:
@@ -2508,6 +2853,11 @@ class _Frame:
         """Expand ``*v`` into positional terms when the length is known."""
         if v.op in ("tuple", "list") and not any(i.op == "star" for i in v.a[0]):
             return list(v.a[0])
+        if v.op == "call" and v.a[0].op == "builtin" and v.a[0].a[0] in ("tuple", "list") and len(v.a[1]) == 1 and not v.a[2] \
+                and v.a[1][0].op in ("tuple", "list", "mut"):
+            inner_ = self.expand_star(v.a[1][0], want)       # *tuple(xs) hands over what *xs does
+            if not any(i.op == "star" for i in inner_):
+                return inner_
         if v.op == "attr" and v.a[1] == "values":
             return [T("sub", (v, const(i))) for i in range(VALUES_ARITY)]
         if v.op == "slice" and v.a[0].op == "attr" and v.a[0].a[1] == "values" and len(v.a) == 3:
@@ -2577,6 +2927,8 @@ class _Frame:
             v = _fold_bin(op, l.a[0], r.a[0])
             if v is not None:
                 return const(v)
+        if op == "+" and l.op == r.op and l.op in ("list", "tuple") and not any(i.op == "star" for i in l.a[0] + r.a[0]):
+            return T(l.op, (l.a[0] + r.a[0],))          # [a] + [b] is [a, b]
         if op == "%" and l.op == "const" and isinstance(l.a[0], str):
             fs = _percent_to_fstr(l.a[0], r)
             if fs is not None:
@@ -2710,6 +3062,10 @@ class _Frame:
     def e_Yield(self, n, st):
         self.is_generator = True
         v = self.eval(n.value, st) if n.value is not None else NONE
+        cb = getattr(self, "on_yield", None)
+        if cb is not None:
+            cb(v, st)               # this generator drives a `for` loop of its caller: the loop body runs here
+            return T("unknown", ("sent",))
         self.rec.returns.append(Ret("yield", v, st.pc, self.loops, self.seq(), self.qualname, n.lineno))
         return T("unknown", ("sent",))
 
@@ -2734,7 +3090,9 @@ class _Frame:
         v = self.eval(n.value, st)
         if self._expand_generator(v, st):
             return T("unknown", ("sent",))
-        if v.op == "call" and v.a[0].op == "builtin" and v.a[0].a[0] in ("map", "filter", "iter") and not v.a[2] \
+        if ((v.op == "call" and v.a[0].op == "builtin" and v.a[0].a[0] in ("map", "filter", "iter") and not v.a[2])
+                or (v.op == "comp" and v.a[0] in ("gen", "list") and v in self.I.__dict__.get("_comp_src", {})
+                    and not isinstance(n.value, (ast.GeneratorExp, ast.ListComp)))) \
                 and not getattr(n, "_as_loop", False):
             # the operand EVALUATES to a lazy pipeline (a helper returned `map(decode, iter(read, b''))`): the same loop as
             # when it is written in place
@@ -2796,12 +3154,23 @@ class _Frame:
             return None
         inline = isinstance(g.iter, (ast.Tuple, ast.List)) and 0 < len(g.iter.elts) <= 16 \
             and not any(isinstance(e, ast.Starred) for e in g.iter.elts)
-        if not inline and not isinstance(g.iter, ast.Name) \
+        enumerated = isinstance(g.iter, ast.Call) and isinstance(g.iter.func, ast.Name) and g.iter.func.id == "enumerate" \
+            and len(g.iter.args) == 1 and not g.iter.keywords and isinstance(g.iter.args[0], ast.Name) \
+            and "enumerate" not in st.env
+        attr_table = isinstance(g.iter, ast.Attribute) and isinstance(g.iter.value, ast.Name) and g.iter.value.id in ("self", "cls")
+        if not inline and not isinstance(g.iter, ast.Name) and not enumerated and not attr_table \
                 and not (isinstance(g.iter, ast.Call) and isinstance(g.iter.func, ast.Name)
                          and g.iter.func.id == "range" and 1 <= len(g.iter.args) <= 3):
             return None
         saved = (len(self.rec.pops), len(self.rec.calls), len(self.rec.effects))
-        items = self.eval(g.iter, st)
+        items = self.eval(g.iter.args[0] if enumerated else g.iter, st)
+        module_rows = False
+        if items.op == "tuple" and not items.a[0] and kind in ("list", "gen", "dict"):
+            # a comprehension over the empty tuple (a default argument `decoders=()`) builds nothing
+            del self.rec.pops[saved[0]:]
+            del self.rec.calls[saved[1]:]
+            del self.rec.effects[saved[2]:]
+            return T("list", ((),)) if kind != "dict" else T("dict", ((),))
         if items.op == "call" and items.a[0] == T("builtin", ("range",)) and 1 <= len(items.a[1]) <= 3 and not items.a[2] \
                 and all(a_.op == "const" and isinstance(a_.a[0], int) and not isinstance(a_.a[0], bool) for a_ in items.a[1]):
             try:
@@ -2815,18 +3184,49 @@ class _Frame:
                     del self.rec.effects[saved[2]:]
                     return T("list", ((),)) if kind != "dict" else T("dict", ((),))
                 items = T("tuple", (tuple(const(i) for i in rng),))
+        def _ref_tree(t_):
+            # constants and references to library objects (`socket.AddressFamily`)
+            return _const_tree(t_) or (t_.op == "global" and not t_.a[0].startswith(("pykdebugparser.", "?"))) \
+                or (t_.op == "tuple" and all(_ref_tree(x_) for x_ in t_.a[0]))
         if items.op == "global":
             found = self.repo.lookup(items.a[0])
             if found and found[0] == "const" and isinstance(found[2], (ast.Tuple, ast.List)) and found[2].elts \
                     and len(found[2].elts) <= 64 and all(_literal_seq(e) for e in found[2].elts):
                 items = self.eval(found[2], st)
+            elif found and found[0] == "const" and isinstance(found[2], ast.Tuple) and 0 < len(found[2].elts) <= 16 and enumerated \
+                    and all(isinstance(e, (ast.Name, ast.Attribute)) for e in found[2].elts):
+                # a module-level tuple of callables (`(socket.AddressFamily, socket.SocketKind)`) paired with positions
+                fr_ = _Frame(self.I, found[1], self.fnode, None, Record(), f"{found[1].name}.<module>", self.depth + 1, self.stack)
+                tv_ = fr_.eval(found[2], State({}, {}, ()))
+                if tv_.op == "tuple" and all(_ref_tree(x_) and x_.op != "tuple" for x_ in tv_.a[0]):
+                    items = tv_
+                    module_rows = True
+            elif found and found[0] == "const" and isinstance(found[2], ast.Tuple) and found[2].elts \
+                    and len(found[2].elts) <= 64 and all(isinstance(e, ast.Tuple) and _table_row(e) for e in found[2].elts) \
+                    and self.depth < self.I.inline_depth:
+                # an immutable module-level table of rows (`(Enum.MEMBER, 'method_name')`, `(key, function)`): evaluated where
+                # it is defined
+                cache = self.I.__dict__.setdefault("_table_cache", {})
+                if id(found[2]) not in cache:
+                    fr_ = _Frame(self.I, found[1], self.fnode, None, Record(), f"{found[1].name}.<module>", self.depth + 1, self.stack)
+                    cache[id(found[2])] = fr_.eval(found[2], State({}, {}, ()))
+                if cache[id(found[2])].op == "tuple" and all(r_.op == "tuple" for r_ in cache[id(found[2])].a[0]):
+                    items = cache[id(found[2])]
+                    module_rows = True
         # a literal written in the comprehension itself is evaluated once, in order, before the first iteration: its
         # items need not be constants
-        local_tuple = isinstance(g.iter, ast.Name) and g.iter.id in st.env and items.op == "tuple" \
+        it_name = g.iter.args[0] if enumerated else g.iter
+        local_tuple = isinstance(it_name, ast.Name) and it_name.id in st.env and items.op == "tuple" \
             and not any(i.op == "star" for i in items.a[0])     # an (immutable) tuple built earlier in this function
         flat_members = items.op in ("tuple", "list") and items.a[0] and all(i.op == "enum" for i in items.a[0])
+        if enumerated and not flat_members and items.op == "tuple" and items.a[0] and len(items.a[0]) <= 64 \
+                and (local_tuple or module_rows or all(_const_tree(i) for i in items.a[0])):
+            items = T("tuple", (tuple(T("tuple", ((const(i_), x_),)) for i_, x_ in enumerate(items.a[0])),))
+            local_tuple = True
+        elif enumerated:
+            flat_members = True          # not unrolled
         if flat_members or not (items.op in ("tuple", "list") and items.a[0] and len(items.a[0]) <= 64
-                                and (inline or local_tuple or all(_const_tree(i) for i in items.a[0]))):
+                                and (inline or local_tuple or module_rows or all(_const_tree(i) for i in items.a[0]))):
             # (a flat tuple of enum members stays a loop over members: that is the form the flag rules judge, C11)
             del self.rec.pops[saved[0]:]
             del self.rec.calls[saved[1]:]
@@ -2918,7 +3318,12 @@ class _Frame:
                 args.append(self.eval(a, st))
         kwargs = []
         for k in n.keywords:
-            kwargs.append((k.arg if k.arg is not None else "**", self.eval(k.value, st)))
+            kv_ = self.eval(k.value, st)
+            if k.arg is None and kv_.op == "dict" and all(kk_.op == "const" and isinstance(kk_.a[0], str) for kk_, _ in kv_.a[0]) \
+                    and len({kk_ for kk_, _ in kv_.a[0]}) == len(kv_.a[0]):
+                kwargs.extend((kk_.a[0], vv_) for kk_, vv_ in kv_.a[0])     # **{'name': v} is name=v
+                continue
+            kwargs.append((k.arg if k.arg is not None else "**", kv_))
         args_t, kwargs_t = tuple(args), tuple(kwargs)
         while func.op == "call" and func.a[0] == T("global", ("functools.partial",)) and func.a[1] \
                 and not any(a.op == "star" for a in func.a[1]) \
@@ -3073,7 +3478,7 @@ class _Frame:
                             st.env[root_.id] = rf           # the method changed its object: the caller's name sees it
                         self._recv_final = None
                         return r
-            if recv.op == "class" and ".trace_handlers." in recv.a[0]:
+            if recv.op == "class" and (".trace_handlers." in recv.a[0] or recv.a[0].rsplit(".", 1)[1].startswith("_")):
                 # an alternative constructor of a result class: `DyldUuidMapA.from_events([e])` (classmethod / staticmethod)
                 f_ = self.repo.lookup(recv.a[0])
                 if f_ and f_[0] == "class" and name in f_[2].methods:
@@ -3085,6 +3490,14 @@ class _Frame:
                         if r is not None:
                             return r
             if recv.op == "global" and recv.a[0].startswith("pykdebugparser."):
+                mo = self._module_object(recv.a[0])
+                if mo is not None:
+                    ci_ = self.repo.lookup(mo.a[0])[2]
+                    if name in ci_.methods:
+                        r = self.inline(ci_.module, ci_.methods[name], ci_, args, kwargs, st, f"{ci_.qualname}.{name}", recv=mo)
+                        self._recv_final = None
+                        if r is not None:
+                            return r
                 inst = self._singleton_instance(recv.a[0])
                 if inst is not None:
                     obj_ = T("new", (inst.qualname, ()))
@@ -3105,6 +3518,14 @@ class _Frame:
                     # identified with earlier ones
                     st.heap[pth] = T("mut", (st.heap.get(pth, pth), name, args))
                 root = node.func.value if isinstance(node, ast.Call) and isinstance(node.func, ast.Attribute) else None
+                if isinstance(root, ast.Attribute) and isinstance(root.value, ast.Name) and root.value.id in st.env \
+                        and st.env[root.value.id].op == "new" and root.attr in dict(st.env[root.value.id].a[1]):
+                    # obj.field.append(x) on a helper object followed by value: the field is the mutated container from now on
+                    obj_ = st.env[root.value.id]
+                    oldf = dict(obj_.a[1])[root.attr]
+                    st.env[root.value.id] = new_with(obj_, root.attr, T("mut", (oldf, name, args)))
+                    st.heap.pop(pth, None) if pth is not None else None
+                    root = None
                 if isinstance(root, (ast.Subscript, ast.Attribute)):
                     # d[k].append(x) on a local container d: d is not what it was (its item changed)
                     base_ = root
@@ -3130,8 +3551,19 @@ class _Frame:
                             more = args[0].a[0]
                         elif args[0].op in ("list", "tuple") and all(i.op == "tuple" and len(i.a[0]) == 2 for i in args[0].a[0]):
                             more = tuple((i.a[0][0], i.a[0][1]) for i in args[0].a[0])
+                        elif args[0].op == "global" and args[0].a[0].startswith("pykdebugparser."):
+                            gd_ = self._module_dict_literal(args[0].a[0])
+                            if gd_ is not None:
+                                more = gd_.a[0]
                         if more is not None and not any(k == "**" for k, _ in kwargs):
-                            st.env[root.id] = T("dict", (recv.a[0] + tuple(more) + tuple((const(k), v) for k, v in kwargs),))
+                            pairs_ = list(recv.a[0])
+                            for k_, v_ in tuple(more) + tuple((const(k), v) for k, v in kwargs):
+                                at_ = [i_ for i_, (k0_, _) in enumerate(pairs_) if k0_ == k_ and k_.op == "const"]
+                                if at_:
+                                    pairs_[at_[0]] = (k_, v_)       # an existing key keeps its place and takes the new value
+                                else:
+                                    pairs_.append((k_, v_))
+                            st.env[root.id] = T("dict", (tuple(pairs_),))
             if recv.op == "const" and isinstance(recv.a[0], str) and name == "format" and not all(a.op == "const" for a in args):
                 fs = _format_to_fstr(recv.a[0], args, kwargs)
                 if fs is not None:
@@ -3195,12 +3627,22 @@ class _Frame:
                     return const(f_)
             if b == "slice" and 1 <= len(args) <= 3 and not kwargs and all(a.op == "const" for a in args):
                 pass            # stays a call term: x[slice(a, b)] is rewritten to the slice it is in e_Subscript
+            if b in ("tuple", "list") and len(args) == 1 and not kwargs and args[0].op in ("mut", "list", "tuple"):
+                # tuple(fields) of a local list filled by unconditional appends: the literal with those items (a copy)
+                items_ = self.expand_star(args[0], None)
+                if not any(i.op == "star" for i in items_):
+                    return T(b, (tuple(items_),))
             if b == "len" and len(args) == 1:
                 a0 = args[0]
                 if a0.op == "const" and isinstance(a0.a[0], (str, bytes, tuple)):
                     return const(len(a0.a[0]))
                 if a0.op in ("tuple", "list") and not any(i.op == "star" for i in a0.a[0]):
                     return const(len(a0.a[0]))
+                if a0.op == "global":
+                    f_ = self.repo.lookup(a0.a[0])          # a module-level tuple literal: immutable, its length is known
+                    if f_ and f_[0] == "const" and isinstance(f_[2], ast.Tuple) \
+                            and not any(isinstance(e_, ast.Starred) for e_ in f_[2].elts):
+                        return const(len(f_[2].elts))
             if b == "setattr" and len(args) == 3 and args[1].op == "const" and isinstance(args[1].a[0], str) and not kwargs:
                 # setattr(obj, 'name', v) is obj.name = v
                 pth = self.path_of(node.args[0], st) if isinstance(node, ast.Call) and len(node.args) == 3 else args[0]
